@@ -88,6 +88,31 @@ func (r *Report) Check(cond bool, rule, construct string, pos token.Pos, flow bo
 	return cond
 }
 
+// Try runs one rule. A rule that cannot resolve its anchors (undecided) is
+// recorded as an undecided obligation and the remaining rules still run, so a
+// violation another rule can establish is reported rather than masked.
+func (r *Report) Try(fn func()) {
+	defer func() {
+		if e := recover(); e != nil {
+			u, ok := e.(undecidedErr)
+			if !ok {
+				panic(e)
+			}
+			if _, ok := r.Rules["ANCHOR"]; !ok {
+				r.Rule("ANCHOR", 0, "every rule resolves the constructs it is anchored in (a failure here means the code no longer has the shape the rule was written for: the property is not decided)")
+			}
+			key := u.msg
+			for _, o := range r.Obs {
+				if o.Rule == "ANCHOR" && o.Msg == key {
+					return
+				}
+			}
+			r.Undecided("ANCHOR", fmt.Sprintf("anchor/%d", len(r.Obs)), token.NoPos, "%s", key)
+		}
+	}()
+	fn()
+}
+
 func (r *Report) Analysed(fi *FuncInfo) {
 	if fi != nil {
 		r.funcs[fi.Pkg.PkgPath+"."+fi.Name()] = true
